@@ -63,7 +63,7 @@ def redactedOk : List Ev → Bool
 
 /-- `c10 open <s|t> <depth> <user> <pass> <phrase> <ret> (<kind> <chunks>)+` →
     `<dom> <spec> <speclines> <outcome> <closed> <writes> <credlines> <buf> <first> <found> <paired>`
-    `c10 ssherr <hex>` → 0/1; `c10 cls <s|t> <depth> <hex>` → kind letter -/
+    `c10 ssherr <hex>` → 0/1; `c10 consts` → the three extracted limits -/
 def handleC10 : List String → String
   | "open" :: fl :: depth :: user :: pass :: phrase :: ret :: st =>
     match depth.toNat?, fromHex user, fromHex pass, fromHex phrase, fromHex ret, parseStages st with
@@ -75,8 +75,10 @@ def handleC10 : List String → String
         | .ssh => wfSSH P first rest
         | .telnet => wfTel P cfg.depth first rest
       let kinds := rest.map (·.kind)
-      let sp := spec cfg 0 0 0 first.kind kinds
-      let sl := specLines cfg 0 0 0 first.kind kinds
+      -- the specification uses the limits the PROPERTY fixes ("at most twice"), the model those of the code
+      let pcfg := { cfg with uMax := 2, pMax := 2, ppMax := 2 }
+      let sp := spec pcfg 0 0 0 first.kind kinds
+      let sl := specLines pcfg 0 0 0 first.kind kinds
       let r := openScript flv P cfg first rest
       let lg := login flv P cfg scriptReact (rest.map (·.chunks)) first.chunks
       let firstRead := readUntil (fun rb => P.promptP (window rb cfg.depth)) r.queue []
@@ -88,6 +90,8 @@ def handleC10 : List String → String
       let buf := if r.outcome == .ok then toHex lg.buf else "none"
       s!"{b2s dom} {outcomeStr sp} {showLines sl} {outcomeStr r.outcome} {b2s r.closed} {showHexList (writesOf r.trace)} {showLines (credLines r.trace)} {buf} {fst} {found} {b2s (paired P cfg none r.trace && redactedOk r.trace)}"
     | _, _, _, _, _, _ => "bad-op"
+  | ["consts"] =>
+    s!"{Gen.Channel.usernameSeenMax} {Gen.Channel.passwordSeenMax} {Gen.Channel.passphraseSeenMax}"
   | ["ssherr", h] =>
     match fromHex h with
     | some b => b2s (c10pats.sshErr b)
